@@ -272,7 +272,7 @@ def run_random(ctx):
 
 # ------------------------------------------------------------------ (3) invalid by construction
 FOREIGN = ['#', '$', '&', '=', ';', '\\', '!', '@', '~', '"', '?', ':', '>', '<', '`', u'×', u'÷',
-           u'−', u'２', '|', ',', u'√', u'π']
+           u'−', u'２', '|', u'√', u'π']      # (a comma is legal inside argument lists and arrays: not foreign)
 
 
 def make_invalid(rng, tokens):
